@@ -218,6 +218,61 @@ pub fn run(cfg: &Cfg, out: &mut Out) {
             }
         }
     }
+    // stress 1: indices that alias a small index modulo 2^8 / 2^16 / 2^32 / 2^63 (a narrowed
+    // index type reads the wrong byte, or takes an out-of-range index for an in-range one)
+    for s in strings.iter().filter(|s| s.chars().count() <= 3) {
+        for i in 0..=s.len() + 1 {
+            for k in [8u32, 16, 32, 63] {
+                let big = i.wrapping_add(1usize << k);
+                one_idx(out, s, big);
+                one_rng(out, s, i, big);
+                one_rng(out, s, big, big);
+                if i > 0 {
+                    one_rng(out, s, 0, big - 1);
+                }
+            }
+        }
+    }
+    // stress 2: long strings (results longer than any block / window size) with one multi-byte
+    // char sitting at every offset 24..=40 from the start and from the end of the result
+    {
+        let ks: Vec<usize> = if cfg.thorough { (13..=70).collect() } else { (24..=40).chain([63usize, 64, 65]).collect() };
+        for lead in [0usize, 1, 3] {
+            for &k in &ks {
+                for c in ['é', '锈', '🧠'] {
+                    for m in [0usize, 5, 40] {
+                        for mirror in [false, true] {
+                            let body = format!("{}{}{}", "a".repeat(k), c, "b".repeat(m));
+                            let body: String = if mirror { body.chars().rev().collect() } else { body };
+                            let s = format!("{}{}", "é".repeat(lead), body);
+                            let cpos = s.char_indices().find(|(_, x)| *x == c && true).map(|(i, _)| i).unwrap_or(0);
+                            let cpos = if c == 'é' && lead > 0 { 2 * lead + if mirror { m } else { k } } else { cpos };
+                            let mut idx: Vec<usize> = vec![0, 2 * lead, s.len()];
+                            for d in 0..=c.len_utf8() {
+                                idx.push(cpos + d);
+                            }
+                            if cpos > 0 {
+                                idx.push(cpos - 1);
+                            }
+                            idx.push(s.len() - 1);
+                            idx.sort_unstable();
+                            idx.dedup();
+                            for &i in &idx {
+                                one_idx(out, &s, i);
+                            }
+                            for &a in &idx {
+                                for &b in &idx {
+                                    if a <= b {
+                                        one_rng(out, &s, a, b);
+                                    }
+                                }
+                            }
+                        }
+                    }
+                }
+            }
+        }
+    }
     // every byte value that can occur in valid UTF-8, in every position of a sequence
     for c in wide_chars(cfg.thorough) {
         one_scan(out, &format!("{}", c));
